@@ -412,7 +412,7 @@ class Driver:
             self.raised = type(e).__name__
         return self.obs()
 
-    def construct(self, script=None, cache_image=True):
+    def construct(self, script=None, cache_image=True, light=False):
         import experiment.appenv
         import experiment.model.executors
         import experiment.runtime.backends_base as bb
@@ -425,7 +425,10 @@ class Driver:
               "kubernetes": {"image": IMAGE, "qos": "guaranteed", "gracePeriod": 30, "cpuUnitsPerCore": 1.0, "image-pull-secret": None, "podSpec": None}}
 
         def fn():
-            if cache_image:
+            if light:
+                self.task = bb.LightWeightKubernetesTaskGenerator(cmd, resourceManager=rm, outputFile=os.path.join(self.d, "out.txt"), label="comp#0",
+                                                                  flowKubeEnvironment=None, pollingInterval=INTERVAL_UNITS * UNIT)
+            elif cache_image:
                 self.task = bb.KubernetesTaskGenerator(cmd, resourceManager=rm, outputFile=os.path.join(self.d, "out.txt"), label="comp#0",
                                                         resourceRequest={"numberProcesses": 1, "numberThreads": 1, "threadsPerCore": 1, "memory": None},
                                                         pollingInterval=INTERVAL_UNITS * UNIT)
